@@ -116,7 +116,7 @@ def run(ctx, pid, args):
             dep_refused['translator'] = refused.get('translator', 'crashed')
         for u in getattr(P, 'GEN_UNITS', []):
             obligations.append((f'translate:{u}', u not in dep_refused, dep_refused.get(u, '')))
-        targets = [f'PdbVerif.Props.{pid}'] + list(getattr(P, 'EXTRA_TARGETS', []))
+        targets = vlib.props_modules(pid) + list(getattr(P, 'EXTRA_TARGETS', []))
         ok_props, log_props, errs_props, t_build = vlib.lake_build(targets)
         ok_drv, log_drv, errs_drv, _ = vlib.lake_build([f'PdbVerif.Driver.Main{getattr(P, "CLUSTER", "Z")}'])
         ok_spec = True
@@ -272,8 +272,8 @@ def run(ctx, pid, args):
         samples.append({'case': clip(r['case'], 3000), 'impl': clip(r['impl']), 'model': clip(r.get('model')), 'spec': clip(r.get('spec'))})
     coverage = {
         'obligations': n_obl, 'discharged': n_dis,
-        'checker_cmd': f'cd /verif/lean && lake build PdbVerif.Props.{pid} && lake env lean PdbVerif/Audit/{pid}.lean' +
-                       (f' && lake env leanchecker PdbVerif.Props.{pid}' if ctx.thorough else ''),
+        'checker_cmd': f'cd /verif/lean && lake build {" ".join(vlib.props_modules(pid))} && lake env lean PdbVerif/Audit/{pid}.lean' +
+                       (f' && lake env leanchecker {" ".join(vlib.props_modules(pid))}' if ctx.thorough else ''),
         'trusted_base': vlib.TRUSTED_BASE + list(getattr(P, 'TRUSTED', [])),
         'obligation_list': [{'name': o[0], 'ok': o[1], 'detail': o[2]} for o in obligations],
         'translator': {'refused': tr.get('refused', []), 'changed': tr.get('changed', [])},
@@ -305,7 +305,7 @@ def run(ctx, pid, args):
 def leanchecker(pid):
     import subprocess
     try:
-        p = subprocess.run(['lake', 'env', 'leanchecker', f'PdbVerif.Props.{pid}'], cwd=vlib.LEAN, capture_output=True, text=True, timeout=3000)
+        p = subprocess.run(['lake', 'env', 'leanchecker'] + vlib.props_modules(pid), cwd=vlib.LEAN, capture_output=True, text=True, timeout=3000)
         return {'ok': p.returncode == 0, 'log': (p.stdout + p.stderr)[-600:]}
     except Exception as e:
         return {'ok': None, 'log': repr(e)}
